@@ -976,8 +976,9 @@ def run_scenario(sc, oracle_classes, judged=None, want_explicit=True, watchdog=T
     rewards_given = []
     labels_used = []
     sched = collections.defaultdict(int)
+    schedmid = collections.defaultdict(int)   # queries between the pull and the receive_reward of a round
     for s in sc.get("schedule") or []:
-        sched[s["after"]] += s.get("times", 1)
+        (schedmid if s.get("mid") else sched)[s["after"]] += s.get("times", 1)
     lab = label_fn(sc.get("labels"))
     T = sc["rounds"]
     viol = None
@@ -1060,6 +1061,9 @@ def run_scenario(sc, oracle_classes, judged=None, want_explicit=True, watchdog=T
                     o.after_pull(p)
                     o.ag_after_pull(top, p)
                     o.after_call("pull")
+                for _ in range(schedmid.get(i, 0)):
+                    query(False)
+                    ctx.stats["mid-round-queries"] += 1
                 r = rf(i, p if isinstance(p, list) else [0.0] * len(domain))
                 rewards_given.append(tag(r))
                 for o in ctx.oracles:
@@ -1092,6 +1096,10 @@ def run_scenario(sc, oracle_classes, judged=None, want_explicit=True, watchdog=T
     res.probes = ctx.probes
     res.fired = seam.fired
     res.fired["rng-calls"] = seam.calls
+    if ctx.stats.get("interjected-queries"):
+        res.fired["interject-query"] = ctx.stats["interjected-queries"]
+    if ctx.stats.get("mid-round-queries"):
+        res.fired["mid-round-query"] = ctx.stats["mid-round-queries"]
     res.sites = seam.sites
     res.digest = ctx.digest()
     res.cells = ctx.nnodes
@@ -1112,7 +1120,8 @@ def run_scenario(sc, oracle_classes, judged=None, want_explicit=True, watchdog=T
         ex["rng"] = seam.explicit_spec()
         ex["labels"] = {"scheme": "explicit", "values": labels_used}
         ex["rounds"] = max(ctx.round, 0) if viol is not None else T
-        ex["schedule"] = [{"after": k, "times": v} for k, v in sorted(sched.items()) if k <= ex["rounds"]]
+        ex["schedule"] = [{"after": k, "times": v} for k, v in sorted(sched.items()) if k <= ex["rounds"]] + \
+                         [{"after": k, "times": v, "mid": True} for k, v in sorted(schedmid.items()) if k <= ex["rounds"]]
         res.explicit = ex
     return res
 
